@@ -63,10 +63,10 @@ def shared_map(sp, rp, tol=1e-5):
     return m
 
 
-def planted(cellname, pairname, copies, seed, decoys=3, straddle=True, noise=0.0):
+def planted(cellname, pairname, copies, seed, decoys=3, straddle=True, noise=0.0, tilt=None):
     rnd = random.Random(seed)
     se, sx, _, _ = PAIRS[pairname]
-    case = geo.build(cellname, None, copies, rnd, decoys=decoys, straddle=straddle, pattern_override=(se, sx), noise=noise)
+    case = geo.build(cellname, None, copies, rnd, decoys=decoys, straddle=straddle, pattern_override=(se, sx), noise=noise, tilt=tilt)
     if seed % 2 == 1:
         gen.add_unused_type(case['structure'])     # every second planted structure carries a trailing atom type that no atom uses
     if len(se) == 1:
